@@ -128,6 +128,7 @@ def run_case(case: Dict[str, Any], ctx) -> None:
         prog = progs.gen_program(rng, case["profile"])
         feats = progs.features(prog)
         m, src = progs.build_module(prog, case["seed"])
+        ctx.sample({"emitted_source": src})
         inputs = progs.make_inputs(prog, case["seed"] + 5)
     has_q = root_case or any(o["op"] in ("linear_f", "nn_linear", "uu_linear", "U_linear", "sdpa") for o in prog["ops"])
     try:
